@@ -14,6 +14,7 @@ from vlib import Infra
 
 def run(v, tier, seed, replay):
     exe = solver.build()
+    inconclusive = []
     r1 = vlib.tlc("Solver", "Solver_bfs.cfg", timeout=1200)
     vlib.tlc_ok(r1, "Solver exploration")
     if r1.violated:
@@ -45,7 +46,10 @@ def run(v, tier, seed, replay):
             raise Infra("solver_drive failed: " + err[-500:])
         ev = [l for l in lines if l.startswith("{")]
         if any('"threw":true' in l for l in ev):
-            raise Infra("GSL reported an integration failure in a protocol run (script: %s)" % cmds)
+            # inconclusive for this history (GSL's error control may refuse a run for reasons of its own); reported as an
+            # infrastructure error at the end unless the rest of the check finds a violation
+            inconclusive.append("GSL reported an integration failure in a protocol run (script: %s)" % cmds)
+            continue
         if any('"contract":false' in l for l in ev):
             raise Infra("environment outside assumption: GSL evaluated the first right-hand side of a run away from the caller's array")
         if any('"e":"Exception"' in l for l in ev):
@@ -66,6 +70,23 @@ def run(v, tier, seed, replay):
     if need - kinds:
         raise Infra("vacuity: event kinds never recorded: %s" % sorted(need - kinds))
     v.cov["protocol_events_validated"] = nev
+    # ---- lifetimes (module SolverSeq): every sequence of construct / re-initialise to another size / toggle / Evolve / move
+    cfq = os.path.join(vlib.BUILD, "C10_solverseq.cfg")
+    with open(cfq, "w") as f:
+        f.write("SPECIFICATION Spec\nCONSTANTS\n  MaxOps = %d\nACTION_CONSTRAINT Emit\nCHECK_DEADLOCK FALSE\n" % (5 if tier == "quick" else 6))
+    rq = vlib.tlc("SolverSeq", cfq, timeout=900, coverage=False)
+    vlib.tlc_ok(rq, "SolverSeq")
+    sviol, nscripts, nevol = solver.seq_replay(exe, rq.edges)
+    if nscripts < 500:
+        raise Infra("SolverSeq exported only %d behaviours ending with an Evolve" % nscripts)
+    seenk = {}
+    for key, text, hist_ in sviol:
+        seenk[key] = seenk.get(key, 0) + 1
+        if seenk[key] <= 3:
+            v.violation(key, "history %s: %s" % (hist_, text), {"lifetime_hist": hist_})
+    v.add("states", rq.distinct); v.add("transitions", rq.generated)
+    v.cov["lifetime_behaviours_replayed"] = {"scripts": nscripts, "evolve_calls_judged": nevol}
+    ntr += nscripts
     # ---- the whole configuration travels with a move (module SolverCfg): every history of setters and moves replayed
     nsc = 0
     for decoy in ("TRUE", "FALSE"):
@@ -206,4 +227,6 @@ def run(v, tier, seed, replay):
         v.sample({"cfg": c["edges"][-1]["cfg"], "hist": c["edges"][-1]["hist"], "mode": list(c["mode"]), "move": c["move"], "t04": c["t04"]})
     v.cov["rule"] = "protocol: %d random histories (<=3 objects, 11 stepper modes) validated event by event; flow: 8 configurations x first switch sets x later switch sets x ticks {0,1,2}^2, moved by ctor/assignment/not, three initial times" % nh
     v.assumptions.append("GslContract (first right-hand side of a run at the caller's array) is an environment assumption, monitored on every trace; its failure is reported as inconclusive")
+    if inconclusive and not v.violations:
+        raise Infra(inconclusive[0])
     return "model_checking"
